@@ -159,6 +159,129 @@ def fsm_decisions():
         table.append([state.value, sorted(ttypes.SupvisorsStates[x].value for x in r if not x.startswith('@')), '@MASTER' in r])
     return table
 anchor('ast:fsm_decisions', fsm_decisions)
+
+def instance_state_writers():
+    """ G6: every assignment of a SupvisorsInstanceStatus state in context.py with the instance states under which it is
+        reached, read off the guards in the source (`X.state == S`, `X.state in [..]`, `X.has_active_state()`,
+        `X.is_checking(..)`, `X.is_inactive(..)`, early returns `if not GUARD: return`, calls to `self.invalidate`). """
+    import textwrap
+    from supvisors.context import Context
+    from supvisors.instancestatus import SupvisorsInstanceStatus
+    IS = ttypes.SupvisorsInstanceStates
+    ALL = [x.value for x in IS]
+    def lit_states(node):
+        return [IS[n.attr].value for n in ast.walk(node) if isinstance(n, ast.Attribute) and isinstance(n.value, ast.Name)
+                and n.value.id == 'SupvisorsInstanceStates']
+    # state sets of the predicates of SupvisorsInstanceStatus (resolved through the predicates they call)
+    pred_cache = {}
+    def pred_states(name, depth=0):
+        if name in pred_cache: return pred_cache[name]
+        fn = getattr(SupvisorsInstanceStatus, name)
+        fn = fn.fget if isinstance(fn, property) else fn
+        tree = ast.parse(textwrap.dedent(inspect.getsource(fn)))
+        ret = [n for n in ast.walk(tree) if isinstance(n, ast.Return)][-1].value
+        res = guard_states(ret, 'self', depth + 1)
+        pred_cache[name] = res
+        return res
+    def is_state_of(node, var):
+        # `var.state` / `self.local_status.state` / `self.state` / `self._state`
+        if not isinstance(node, ast.Attribute) or node.attr not in ('state', '_state'): return False
+        return ast.unparse(node.value) == var
+    def guard_states(test, var, depth=0):
+        """ instance states of `var` under which `test` can hold (None = no constraint) """
+        if isinstance(test, ast.BoolOp) and isinstance(test.op, ast.And):
+            sets = [guard_states(v, var, depth) for v in test.values]
+            sets = [x for x in sets if x is not None]
+            if not sets: return None
+            r = set(sets[0])
+            for x in sets[1:]: r &= set(x)
+            return sorted(r)
+        if isinstance(test, ast.BoolOp) and isinstance(test.op, ast.Or):
+            sets = [guard_states(v, var, depth) for v in test.values]
+            if any(x is None for x in sets): return None
+            return sorted(set().union(*map(set, sets)))
+        if isinstance(test, ast.UnaryOp) and isinstance(test.op, ast.Not):
+            if isinstance(test.operand, ast.UnaryOp) and isinstance(test.operand.op, ast.Not):
+                return guard_states(test.operand.operand, var, depth)
+            inner = guard_states(test.operand, var, depth)
+            # the complement is only exact for pure state tests
+            if inner is not None and pure_state_test(test.operand, var): return sorted(set(ALL) - set(inner))
+            return None
+        if isinstance(test, ast.Compare) and len(test.ops) == 1 and is_state_of(test.left, var):
+            vals = lit_states(test.comparators[0])
+            if isinstance(test.ops[0], (ast.Eq, ast.In)): return sorted(vals)
+            if isinstance(test.ops[0], (ast.NotEq, ast.NotIn)): return sorted(set(ALL) - set(vals))
+        if isinstance(test, ast.Call) and isinstance(test.func, ast.Attribute) and ast.unparse(test.func.value) == var \
+                and hasattr(SupvisorsInstanceStatus, test.func.attr) and depth < 4:
+            return pred_states(test.func.attr, depth)
+        if isinstance(test, ast.Attribute) and ast.unparse(test.value) == var and isinstance(getattr(SupvisorsInstanceStatus, test.attr, None), property) \
+                and test.attr not in ('state',) and depth < 4:
+            return pred_states(test.attr, depth)
+        return None
+    def pure_state_test(test, var):
+        if isinstance(test, ast.Compare) and len(test.ops) == 1 and is_state_of(test.left, var): return True
+        if isinstance(test, ast.Call) and isinstance(test.func, ast.Attribute) and test.func.attr == 'has_active_state': return True
+        return False
+    def meet(a, b):
+        if a is None: return b
+        if b is None: return a
+        return sorted(set(a) & set(b))
+    sites = []; calls = []     # (function, variable, target, guard) ; (function, callee, arg variable, guard)
+    def returns(body): return any(isinstance(x, (ast.Return, ast.Raise)) for x in body)
+    def walk(fname, body, guards):
+        """ guards: dict variable -> states or None """
+        guards = dict(guards)
+        for st in body:
+            if isinstance(st, ast.Assign) and len(st.targets) == 1 and isinstance(st.targets[0], ast.Attribute) \
+                    and st.targets[0].attr == 'state' and lit_states(st.value):
+                var = ast.unparse(st.targets[0].value)
+                sites.append((fname, var, lit_states(st.value)[0], guards.get(var)))
+            for n in ast.walk(st) if not isinstance(st, (ast.If, ast.For, ast.While, ast.Try, ast.With)) else []:
+                if isinstance(n, ast.Call) and isinstance(n.func, ast.Attribute) and ast.unparse(n.func.value) == 'self' \
+                        and hasattr(Context, n.func.attr) and n.args:
+                    var = ast.unparse(n.args[0])
+                    calls.append((fname, n.func.attr, var, guards.get(var)))
+            if isinstance(st, ast.If):
+                tested = {v for v in list(guards) + vars_in(st.test)}
+                g_then = dict(guards); g_else = dict(guards)
+                for v in tested:
+                    g = guard_states(st.test, v)
+                    g_then[v] = meet(guards.get(v), g)
+                    neg = guard_states(ast.UnaryOp(op=ast.Not(), operand=st.test), v)
+                    g_else[v] = meet(guards.get(v), neg)
+                walk(fname, st.body, g_then)
+                walk(fname, st.orelse, g_else)
+                # early return: the rest of the block runs under the negation
+                if returns(st.body) and not st.orelse: guards = g_else
+            elif isinstance(st, (ast.For, ast.While, ast.With)):
+                walk(fname, st.body, guards)
+            elif isinstance(st, ast.Try):
+                walk(fname, st.body, guards)
+                for h in st.handlers: walk(fname, h.body, guards)
+                walk(fname, st.finalbody, guards)
+    def vars_in(test):
+        out = []
+        for n in ast.walk(test):
+            if isinstance(n, ast.Attribute) and n.attr in ('state', '_state'): out.append(ast.unparse(n.value))
+            if isinstance(n, ast.Call) and isinstance(n.func, ast.Attribute) and hasattr(SupvisorsInstanceStatus, n.func.attr):
+                out.append(ast.unparse(n.func.value))
+        return out
+    trees = {}
+    for name, fn in inspect.getmembers(Context, predicate=inspect.isfunction):
+        tree = ast.parse(textwrap.dedent(inspect.getsource(fn))).body[0]
+        trees[name] = tree
+        walk(name, tree.body, {})
+    # interprocedural: a function whose sites are unguarded on its first parameter inherits the guards of its call sites
+    out = []
+    for fname, var, target, guard in sites:
+        params = [a.arg for a in trees[fname].args.args[1:]]
+        if guard is None and var in params:
+            cs = [g for (caller, callee, argvar, g) in calls if callee == fname]
+            if cs and all(g is not None for g in cs): guard = sorted(set().union(*map(set, cs)))
+        out.append([f'{fname}:{var}', sorted(guard) if guard is not None else ALL, target])
+    assert out, 'no assignment site found'
+    return sorted(out)
+anchor('ast:instance_state_writers', instance_state_writers)
 print(json.dumps(out))
 '''
 
@@ -228,6 +351,9 @@ def generate(repo, outdir):
     dec = val('ast:fsm_decisions', [])
     L.append('/-- G5: per FSM state, the states its state class can RETURN from `next` as literals (resolved through the MRO), and whether it\n    can return the state of the Master (`_slave_next`) -/')
     L.append('def fsmDecisions : List (Nat × List Nat × Bool) := [' + ', '.join(f'({a}, {lean_list(b)}, {str(c).lower()})' for a, b, c in dec) + ']')
+    sites = val('ast:instance_state_writers', [])
+    L.append('/-- G6: every assignment of an instance state in context.py: (function:variable, instance states under which it is reached, target) -/')
+    L.append('def instStateWriters : List (String × List Nat × Nat) := [' + ', '.join(f'("{a}", {lean_list(b)}, {c})' for a, b, c in sites) + ']')
     lc = val('ast:is_loading_valid', [])
     L.append('/-- comparisons inside `is_loading_valid`: (operators, constants) -/')
     L.append('def loadingValidCmps : List (List String × List Nat) := [' +
